@@ -115,7 +115,7 @@ fn transform(u: &mut Choices, f: &File, doc: &V) -> Option<Xform> {
     let mut g = f.clone();
     let c0 = clause_at(&mut g, &s).clone();
     let fresh = "zv".to_string();
-    let kind = u.below(11);
+    let kind = u.below(13);
     match kind {
         0 | 1 => {
             // literal on the right-hand side -> variable
@@ -243,6 +243,24 @@ fn transform(u: &mut Choices, f: &File, doc: &V) -> Option<Xform> {
                 if c0.q.parts.iter().any(|p| matches!(p, Part::Filter(_))) && kind == 7 {
                     // keep filters out of arguments (their context is the caller's anyway)
                 }
+                if kind >= 11 {
+                    // two parameters whose names are also the names of the caller's variables,
+                    // crossed over: zg(zpa, zpb) { %zpa op %zpb } called as zg(%zpb, %zpa) with
+                    // `let zpa = <literal>` and `let zpb = <query>` in the calling rule
+                    if let Kind::Unary { .. } = c0.kind {
+                        return None;
+                    }
+                    let lvl = *u.pick(&[Level::Rule, Level::File]);
+                    add_let(&mut g, &s, lvl, Let { name: "zpa".into(), value: Expr::Lit(l.clone()) });
+                    add_let(&mut g, &s, lvl, Let { name: "zpb".into(), value: Expr::Query { some: false, q: c0.q.clone() } });
+                    let mut bc = c0.clone();
+                    bc.q = var_q("zpa", vec![]);
+                    bc.kind = Kind::Binary { op: *op, opneg: *opneg, rhs: Expr::Query { some: false, q: var_q("zpb", vec![]) } };
+                    g.prules.push(PRule { name: "zg".into(), params: vec!["zpa".into(), "zpb".into()], lets: vec![], body: vec![vec![Item::Clause(bc)]] });
+                    let args = vec![Expr::Query { some: false, q: var_q("zpb", vec![]) }, Expr::Query { some: false, q: var_q("zpa", vec![]) }];
+                    g.rules[s.rule].body[s.line][s.alt] = Item::PCall { neg: false, name: "zg".into(), args, msg: None };
+                    return Some(Xform { kind: "param-crossed-names", file: g, note: format!("clause -> zg(%zpb, %zpa) with zpa = {} and zpb = {} at {:?}", lit_text(l), query_text(&c0.q), lvl), resolves: true });
+                }
                 let pname = "zp".to_string();
                 let (body_clause, arg, note) = if kind == 7 {
                     // query becomes the argument
@@ -354,7 +372,7 @@ fn random_case(u: &mut Choices, sz: Size) -> CaseResult {
 
 pub fn run(tier: Tier, seed: u64) -> i32 {
     let spec = EvidenceSpec {
-        rule: "Random core programs x documents; one abstraction per case: a right-hand literal -> `let` (file, rule, block or when scope; optionally shadowing an outer definition of the same name), a prefix of a left-hand query -> `let` + `%v.rest` (at the scope whose context is the clause's context), a block query -> `let`, an unused `let` (literal, unresolved query, or a function call that would raise an error), a rule-body clause -> parameterised rule called with the query or with the literal as argument; the rules of the abstracted program are additionally shuffled in half of the cases (which reference forces the lazy evaluation first). Both programs are evaluated by the tool: every rule of the original must keep its status (or both raise an evaluation error). Exempt: emptiness tests on a bare variable, filters directly after a variable. Non-trivial: the abstracted expression resolves to a value and some rule is not SKIP; distinct by hash of the three texts.".into(),
+        rule: "Random core programs x documents; one abstraction per case: a right-hand literal -> `let` (file, rule, block or when scope; optionally shadowing an outer definition of the same name), a prefix of a left-hand query -> `let` + `%v.rest` (at the scope whose context is the clause's context), a block query -> `let`, an unused `let` (literal, unresolved query, or a function call that would raise an error), a rule-body clause -> parameterised rule called with the query or with the literal as argument, or a two-parameter rule whose parameter names are also the caller's variable names, passed crossed over (`zg(%zpb, %zpa)`); the rules of the abstracted program are additionally shuffled in half of the cases (which reference forces the lazy evaluation first). Both programs are evaluated by the tool: every rule of the original must keep its status (or both raise an evaluation error). Exempt: emptiness tests on a bare variable, filters directly after a variable. Non-trivial: the abstracted expression resolves to a value and some rule is not SKIP; distinct by hash of the three texts.".into(),
         assumptions: vec!["`%v.rest` continues from every value of v (the implicit [*] is a no-op on the result set), as documented in QUERY_PROJECTION_AND_INTERPOLATION.md".into()],
     };
     execute("C15", tier, seed, spec, &replay, &|run: &Session| {
